@@ -156,6 +156,7 @@ type Obligation struct {
 }
 
 type Enc struct {
+	usesUncomparable bool // an interface comparison was encoded (declare uncomparable_tag and its facts)
 	roCells []roCell // local cells no callee can write (see cellWrittenOnlyHere)
 	csHit map[string]bool // callsite clauses that matched a call
 	w       *World
